@@ -232,6 +232,9 @@ def load_known_findings():
             line = line.strip()
             if not line or line.startswith("#"):
                 continue
+            if line.startswith("fixed:"):
+                fixed.append(line)
+                continue
             r = json.loads(line)
             if r.get("status") == "known":
                 known[(r["property"], r["key"])] = r
